@@ -42,8 +42,20 @@ static void violation(const char* db, const char* name, int year, const char* wh
   g_viol++;
 }
 
+// The name-printing operations of a time zone bound to a generated zone: generated names are not bounded by the
+// longest shipped one (the source has last components of 16 and of 40 characters). Memory safety only - what is
+// printed is not this property's business; the sanitizers watch the call.
+static void printNames(const TimeZone& tz) {
+  StrPrint sp;
+  tz.printTo(sp);
+  sp.clear();
+  tz.printShortTo(sp);
+  g_checks++;
+}
+
 static void askExtended(ExtendedZoneProcessor& proc, const extended::ZoneInfo* info, int year, bool freshMark) {
   TimeZone tz = TimeZone::forZoneInfo(info, &proc);
+  if (year % 16 == 0) printNames(tz);
   const int recorded = info->transitionBufSize;
   for (int k = 0; k < 4; k++) {
     if (freshMark) proc.resetTransitionHighWater();
@@ -67,6 +79,7 @@ static void askExtended(ExtendedZoneProcessor& proc, const extended::ZoneInfo* i
 
 static void askBasic(BasicZoneProcessor& proc, const basic::ZoneInfo* info, int year) {
   TimeZone tz = TimeZone::forZoneInfo(info, &proc);
+  if (year % 16 == 0) printNames(tz);
   for (int k = 0; k < 4; k++) {
     ace_time_verif_basic_dropped = 0;
     acetime_t t = (acetime_t)(epochOfYearStart(year) + (int64_t)kDayOffsets[k] * 86400 + 3600);
